@@ -242,6 +242,7 @@ func c17Check(l *explore.Local, _ struct{}, c c17Case) *explore.Fail {
 		// fill OAM through a DMA transfer (no CPU/OAM-bug interaction): every row distinct
 		for i := 0; i < 160; i++ {
 			m.Map.Write(0xc100+uint16(i), c17Pattern(i, c.Line, c.Objs))
+			m.Map.Write(0xc200+uint16(i), uint8(i*11+i/8*0x35+0x07))
 		}
 		if c.Objs {
 			m.Map.Write(0xff40, 0x93)
@@ -324,6 +325,20 @@ func c17Check(l *explore.Local, _ struct{}, c c17Case) *explore.Fail {
 						m.Hardware()
 					}
 				case "poweron":
+				case "onlcdc":
+					// LCD on with objects enabled: the guest clears LCDC bit 1 (objects off, LCD stays on) at this position
+					// of the line, mode 2 included, and the program runs c.OnFor cycles later
+					m.Map.Write(0xff40, lcdc&^0x02)
+					for i := 0; i < c.OnFor; i++ {
+						m.Hardware()
+					}
+				case "dmaon":
+					// LCD on: a transfer from C200 is started at this position of the line (so that scans begin and end while
+					// it runs); the program runs c.OnFor (> 162) cycles later, when OAM holds the second pattern
+					m.Map.Write(0xff46, 0xc2)
+					for i := 0; i < c.OnFor; i++ {
+						m.Hardware()
+					}
 				case "on":
 					// every position of the line, mode 2 included: what an armed cycle does to OAM is the emulated bug's
 					// business (the end state is then not judged), but every cycle that begins outside mode 2 is
@@ -335,6 +350,11 @@ func c17Check(l *explore.Local, _ struct{}, c c17Case) *explore.Fail {
 				}
 				if c.Mode == "poweron" {
 					oam0 = *m.OAMBytes() // what power-on left there
+				}
+				if c.Mode == "dmaon" {
+					for i := range oam0 {
+						oam0[i] = uint8(i*11 + i/8*0x35 + 0x07)
+					}
 				}
 				s2p, s2o, s2i, s2t, s2c, s2m, s2a := *m.P, *m.OAM, *m.I, *m.T, *m.CPU, *m.Map, *m.A
 				for _, ptr := range ptrs {
@@ -432,6 +452,12 @@ func c17Check(l *explore.Local, _ struct{}, c c17Case) *explore.Fail {
 								}
 								if c.Mode == "offon" {
 									state = "LCD on outside mode 2 (after being switched off and on)"
+								}
+								if c.Mode == "onlcdc" {
+									state = "LCD on outside mode 2 (after objects were switched off in LCDC)"
+								}
+								if c.Mode == "dmaon" {
+									state = "LCD on outside mode 2 (after a DMA transfer that ran across the end of a scan)"
 								}
 								if c.Mode == "poweron" {
 									state = fmt.Sprintf("no transfer requested since power-on (LCD off: %v)", c.Off)
@@ -547,7 +573,7 @@ func init() {
 		if c.Thorough() {
 			n = 2
 		}
-		explore.Product(c.R, "oam-integrity", explore.PartOpt{Bound: fmt.Sprintf("programs of length <= %d (one extra block of length %d on line 1)", n, n+1), Domain: "switch-off at every cycle of lines 0,1,143,144,153; off-on-off; LCD on with the program started at every position of the line (a byte of OAM may change in a machine cycle that begins outside mode 2 only to a value the program stores there; OAM is observed after every cycle without a bus access); the same with objects enabled and eight objects on the line (lines 1, 77, 143); switch-off at every cycle of lines 1 and 150 followed by one of 16 register writes (LY, STAT, LYC, LCDC with bit 7 clear, scroll, window, palettes, IF, IE); the LCD switched off at every cycle of lines 1 and 144 on a machine built with DebugLCD; DMA started + pointer instruction at every cycle of line 1 with the LCD on, then LCD off and NOPs until after the transfer, or the LCD left on and no change allowed outside mode 2 after the transfer; LCD switched off and on with the program at every cycle 0-139 after the switch-on; from power-on (LCD on / switched off at once) with the program at every cycle 0-179 and 180 quiet cycles after it; HALT executed from FE90 at every cycle of lines 1 and 143 until v-blank wakes the CPU"},
+		explore.Product(c.R, "oam-integrity", explore.PartOpt{Bound: fmt.Sprintf("programs of length <= %d (one extra block of length %d on line 1)", n, n+1), Domain: "switch-off at every cycle of lines 0,1,143,144,153; off-on-off; LCD on with the program started at every position of the line (a byte of OAM may change in a machine cycle that begins outside mode 2 only to a value the program stores there; OAM is observed after every cycle without a bus access); the same with objects enabled and eight objects on the line (lines 1, 77, 143); switch-off at every cycle of lines 1 and 150 followed by one of 16 register writes (LY, STAT, LYC, LCDC with bit 7 clear, scroll, window, palettes, IF, IE); the LCD switched off at every cycle of lines 1 and 144 on a machine built with DebugLCD; DMA started + pointer instruction at every cycle of line 1 with the LCD on, then LCD off and NOPs until after the transfer, or the LCD left on and no change allowed outside mode 2 after the transfer; LCD switched off and on with the program at every cycle 0-139 after the switch-on; from power-on (LCD on / switched off at once) with the program at every cycle 0-179 and 180 quiet cycles after it; HALT executed from FE90 at every cycle of lines 1 and 143 until v-blank wakes the CPU; objects switched off in LCDC at every cycle of a line and the program 0/25/60 cycles later; a DMA started at every cycle of a line and the program 165/200/240 cycles later"},
 			func(yield func(c17Case) bool) {
 				for _, line := range []int{0, 1, 143, 144, 153} {
 					for from := 0; from < 114; from += 6 {
@@ -615,6 +641,26 @@ func init() {
 					for _, t := range offAt {
 						for onFor := 0; onFor < 140; onFor++ {
 							if !yield(c17Case{Mode: "offon", Line: line, From: t, To: t + 1, Len: n, OnFor: onFor}) {
+								return
+							}
+						}
+					}
+				}
+				// objects switched off in LCDC (the LCD stays on) at every cycle of a line, the program 0, 25 or 60 cycles later
+				for _, line := range []int{1, 143} {
+					for from := 0; from < 114; from += 6 {
+						for _, w := range []int{0, 25, 60} {
+							if !yield(c17Case{Mode: "onlcdc", Line: line, From: from, To: from + 6, Len: 1, OnFor: w, Objs: true}) {
+								return
+							}
+						}
+					}
+				}
+				// a transfer started at every cycle of a line with the LCD on; the program after it has ended
+				for _, line := range []int{1, 143} {
+					for from := 0; from < 114; from += 6 {
+						for _, w := range []int{165, 200, 240} {
+							if !yield(c17Case{Mode: "dmaon", Line: line, From: from, To: from + 6, Len: 1, OnFor: w}) {
 								return
 							}
 						}
